@@ -1,6 +1,7 @@
 /-
   C06 — executable model of lib/gnu_gama/local/acord/acordzderived.cpp (AcordZderived::execute, as
-  repaired by 2bd0b4a: instrument / target heights of the zenith angle are applied).  Core Lean only.
+  repaired by 2bd0b4a (instrument / target heights of the zenith angle are applied) and 50e5b35 (second-face
+  readings are reduced).  Core Lean only.
 
   `execute` only *reads* `PD_` and appends to `candidate_z_`; the heights are published by
   Acord2::get_medians_z (`getMediansZ`, AcordBase.lean) at the end of the round.
@@ -14,7 +15,7 @@
     `continue` (nothing at all for this cluster) when there is no usable zenith angle, no usable distance
     of either kind, or no height came out;
   * branch B (with `station_z`): the same three sources for every target whose height is unknown.
-  `vertical_angle = pi/2 - za->value()` with `pi = std::acos(-1)`;
+  `vertical_angle = pi/2 - zenith` with `pi = std::acos(-1)`, `zenith` = the reading, `2*pi −` reading if it is `> pi`;
   branch A: `dh = to_dh - from_dh`, `h = z_to - d*tan(va) + dh` (slope: `sin`);
   branch B: `dh = from_dh - to_dh`, `h = station_z + d*tan(va) + dh`.
   The dh of the *slope distance* itself is not used.
@@ -50,6 +51,9 @@ def zdSDistances (keep : ι → Bool) (obs : List (Obs ι K)) : List (ι × K) :
     | .sdistance _ t v _ _ => if keep t then some (t, v) else none
     | _ => none)
 
+/-- fix 50e5b35: `zenith = za->value() > pi ? 2*pi - za->value() : za->value()` (second-face reading) -/
+def zdZenith (v : K) : K := if (zdPi : K) < v then two * zdPi - v else v
+
 /-- `dx = from.x - to.x; dy = from.y - to.y; d = sqrt(dx*dx + dy*dy)` -/
 def zdCoordDist (pd : PD ι K) (za : ZA ι K) : K :=
   let dx := (pd za.f).x - (pd za.t).x
@@ -58,7 +62,7 @@ def zdCoordDist (pd : PD ι K) (za : ZA ι K) : K :=
 
 /-- branch A: the station heights one zenith angle contributes (`sp_height.push_back` in order) -/
 def zdStationHeights (pd : PD ι K) (ds ss : List (ι × K)) (za : ZA ι K) : List K :=
-  let va := zdPi / two - za.v
+  let va := zdPi / two - zdZenith za.v
   let dh := za.tdh - za.fdh
   ((ds.filter (fun d => decide (za.t = d.1))).map (fun d => (pd d.1).z - d.2 * tan va + dh)) ++
   ((ss.filter (fun s => decide (za.t = s.1))).map (fun s => (pd s.1).z - s.2 * sin va + dh)) ++
@@ -66,7 +70,7 @@ def zdStationHeights (pd : PD ι K) (ds ss : List (ι × K)) (za : ZA ι K) : Li
 
 /-- branch B: the target candidates one zenith angle contributes (`candidate_z_.insert` in order) -/
 def zdTargetHeights (pd : PD ι K) (stationZ : K) (ds ss : List (ι × K)) (za : ZA ι K) : List (ι × K) :=
-  let va := zdPi / two - za.v
+  let va := zdPi / two - zdZenith za.v
   let dh := za.fdh - za.tdh
   ((ds.filter (fun d => decide (za.t = d.1))).map (fun d => (d.1, stationZ + d.2 * tan va + dh))) ++
   ((ss.filter (fun s => decide (za.t = s.1))).map (fun s => (s.1, stationZ + s.2 * sin va + dh))) ++
